@@ -166,17 +166,24 @@ def minimize_cases(tier, seed):
 
 
 # ------------------------------------------------------------------------------------------------ acquisition rules on a stub surrogate
+STUB_BOUNDS = {'a': (0.5, 2.0), 'b': (-3.0, -1.0)}       # asymmetric, away from zero: interval-arithmetic slips show
+
+
 class _StubModel:
     def __init__(self, names=GP_NAMES):
         self.parameter_names = list(names)
         self.input_dim = len(names)
-        self.bounds = [BOUNDS[n] for n in names]
+        self.bounds = [STUB_BOUNDS[n] for n in names]
+
+
+def _stub_lohi(names=GP_NAMES):
+    return np.array([STUB_BOUNDS[n][0] for n in names]), np.array([STUB_BOUNDS[n][1] for n in names])
 
 
 def check_add_noise(inp):
     acqm = native.import_module('elfi.methods.bo.acquisition')
     model = _StubModel()
-    lo, hi = _lohi()
+    lo, hi = _stub_lohi()
     acq = acqm.LCBSC(model, noise_var=inp['noise_var'], seed=inp['seed'])
     x0 = np.array(inp['points'], float)
     with native.time_limit(20):
@@ -197,7 +204,7 @@ def check_add_noise(inp):
 
 
 def add_noise_cases(tier, seed):
-    lo, hi = _lohi()
+    lo, hi = _stub_lohi()
     rs = np.random.RandomState(seed)
     out = []
     for nv in (None, 0, 0.0, 1e-6, 0.1, 25.0, {'a': 0.2, 'b': 0.0}, {'a': 0, 'b': 3.0}, {'a': 0.5, 'b': 0.01}):
@@ -209,7 +216,7 @@ def add_noise_cases(tier, seed):
 
 def check_uniform(inp):
     acqm = native.import_module('elfi.methods.bo.acquisition')
-    lo, hi = _lohi()
+    lo, hi = _stub_lohi()
     acq = acqm.UniformAcquisition(_StubModel(), seed=inp['seed'])
     x = np.asarray(acq.acquire(inp['n'], t=0))
     if x.shape != (inp['n'], 2):
@@ -325,7 +332,9 @@ def run_bo(inp):
             while not bo.finished:
                 bo.iterate()
         # ---- oracle
-        for a in acquired:
+        for k, a in enumerate(acquired):
+            if a['t'] != k:
+                return 'acquisition call number %d was made with acquisition index t=%r' % (k, a['t']), None
             if a['x'].shape != (a['n'], 2):
                 return 'acquire(%d) returned shape %r' % (a['n'], a['x'].shape), None
             if a['n'] != b * bo.batches_per_acquisition:
@@ -458,7 +467,7 @@ def signature(inp, what):
             return 'c11:prior-support-not-in-bounds' if inp['prior'] != 'inside' else 'c11:randmaxvar-out-of-bounds'
         return 'c11:randmaxvar-point-count'
     if inp['kind'] in ('bo', 'bo-schedules'):
-        for key, sig in (('pending', 'c11:pending-at-acquire'), ('n_evidence', 'c11:n_evidence'), ('outside the bounds', 'c11:bo-out-of-bounds'),
+        for key, sig in (('pending', 'c11:pending-at-acquire'), ('acquisition index', 'c11:acquisition-index'), ('n_evidence', 'c11:n_evidence'), ('outside the bounds', 'c11:bo-out-of-bounds'),
                          ('differs between worker schedules', 'c11:schedule-dependent-evidence'), ('surrogate evidence', 'c11:evidence-not-consumed-batches')):
             if key in what:
                 return sig
